@@ -28,7 +28,9 @@ PidonClause(c, e, fids) ==
     ELSE IF e.recv["u"].shape # <<nF, n, 1>> THEN "model-output-shape"
     ELSE IF \E nm \in PidonNeeds(c.res), i \in 1..nF, j \in 1..n : At(e.recv[nm], i, j, nF, n) # PidonArg(c, Net, fids, nm, i, j)
          THEN "residual-arguments:" \o (CHOOSE nm \in PidonNeeds(c.res) : \E i \in 1..nF, j \in 1..n : At(e.recv[nm], i, j, nF, n) # PidonArg(c, Net, fids, nm, i, j))
-    ELSE IF ~RatEq(e.loss, PidonLossTimesN(c, Net, fids), nF * n) THEN "loss-value"
+    ELSE IF c.red = "sum" /\ ~RatEq(e.loss, PidonLossTimesN(c, Net, fids), 1) THEN "loss-value(reduce_fn = sum)"
+    ELSE IF c.red = "max" /\ ~RatEq(e.loss, MaxS(PidonErrs(c, Net, fids)), 1) THEN "loss-value(reduce_fn = max)"
+    ELSE IF c.red = "mean" /\ ~RatEq(e.loss, PidonLossTimesN(c, Net, fids), nF * n) THEN "loss-value"
     ELSE "ok"
 DonClause(c, e) ==
     LET D == DonDist(c, Net)  N == Len(D)
